@@ -649,11 +649,85 @@ def _root_name(n):
     return n.id if isinstance(n, ast.Name) else None
 
 
+def mro_walk_filters(fns, is_mro, is_cls_dict):
+    """reasons why the walk over the MRO in `fns` (reset and its helpers) does NOT visit every class of the MRO:
+    the iterable is a slice / filter(...) / the direct bases only; the loop body can skip a class (`continue`, `break`,
+    an `if` on the class itself rather than on the entries of its dictionary); a comprehension condition on the class"""
+    why = []
+
+    def names(e):
+        return {x.id for x in ast.walk(e) if isinstance(x, ast.Name)}
+
+    def mentions_class_itself(test, targets):
+        """`test` uses a loop variable bound to a class other than through `<cls>.__dict__` / `vars(<cls>)`"""
+        hidden = set()
+        for x in ast.walk(test):
+            if is_cls_dict(x):
+                hidden |= {id(y) for y in ast.walk(x)}
+        return any(isinstance(x, ast.Name) and x.id in targets and id(x) not in hidden for x in ast.walk(test))
+
+    def partial_iter(it):
+        """the iterable is derived from the MRO but is not the whole MRO"""
+        if isinstance(it, ast.Attribute) and it.attr == '__bases__':
+            return 'walks __bases__ (the direct bases only)'
+        if isinstance(it, ast.Subscript) and (is_mro(it.value) or partial_iter(it.value)):
+            return 'walks a slice of the MRO'
+        if isinstance(it, ast.Call):
+            fn_ = _fname(it)
+            if fn_ in ('filter', 'takewhile', 'dropwhile', 'islice', 'filterfalse') and any(is_mro(a) or partial_iter(a) for a in it.args):
+                return 'walks %s(...) of the MRO' % fn_
+            if fn_ in ('reversed', 'list', 'tuple', 'iter', 'sorted', 'enumerate') and it.args:
+                return partial_iter(it.args[0])
+        if isinstance(it, (ast.GeneratorExp, ast.ListComp, ast.SetComp)):
+            for g in it.generators:
+                r = comp_reason(g)
+                if r:
+                    return r
+        return None
+
+    def comp_reason(g):
+        if is_mro(g.iter) or partial_iter(g.iter):
+            t = names(g.target)
+            r = partial_iter(g.iter)
+            if r:
+                return r
+            for c in g.ifs:
+                if mentions_class_itself(c, t):
+                    return 'comprehension over the MRO with a condition on the class: %s' % ast.unparse(c)
+        return None
+    for f in fns:
+        for n in ast.walk(f):
+            if isinstance(n, ast.comprehension):
+                r = comp_reason(n)
+                if r:
+                    why.append(r)
+            if isinstance(n, ast.For):
+                r = partial_iter(n.iter)
+                if r:
+                    why.append(r)
+                if not (is_mro(n.iter) or r):
+                    continue
+                t = names(n.target)
+                for x in ast.walk(ast.Module(body=n.body, type_ignores=[])):
+                    if isinstance(x, (ast.Continue, ast.Break)):
+                        # a continue/break of an INNER loop over the dictionary entries skips an entry, not a class
+                        inner = [y for y in ast.walk(ast.Module(body=n.body, type_ignores=[])) if isinstance(y, (ast.For, ast.While))
+                                 and any(z is x for z in ast.walk(y))]
+                        if not inner:
+                            why.append('the loop over the MRO can skip a class (%s)' % type(x).__name__.lower())
+                    if isinstance(x, (ast.If, ast.IfExp, ast.While, ast.Assert)) and mentions_class_itself(x.test, t):
+                        why.append('the loop over the MRO tests the class itself: %s' % ast.unparse(x.test))
+                    if isinstance(x, ast.Try):
+                        why.append('the loop over the MRO has a try/except (a class may be skipped)')
+    return sorted(set(why))
+
+
 def reset_name_source(repo):
     """HOW `ResetMixin.reset` obtains the names it deletes: 'walkPerCall' (recomputed from the class dictionaries on
     every call, nothing kept outside the object), 'ownTable' (a table stored on the class and looked up in the class's
     OWN dictionary with a constant key), 'inheritedTable' (stored on the class and found by attribute lookup —
-    getattr / hasattr / cls.<name> — which also finds a parent's table), 'unknown' (any other state outside the
+    getattr / hasattr / cls.<name> — which also finds a parent's table), 'walkFiltered' (recomputed per call, or kept in an
+    own table, but the walk does NOT visit every class of the MRO: `mro_walk_filters`), 'unknown' (any other state outside the
     object: globals, module-level containers)."""
     try:
         tree = _parse('nitime/descriptors.py', repo)
@@ -777,12 +851,14 @@ def reset_name_source(repo):
             if r is not None and r not in locs and r != 'self' and r not in clsnames:
                 other = True
                 why.append('uses the non-local name %s' % r)
+    # WHICH classes of the MRO the walk visits: all of them, or only those passing a predicate / a slice / the direct bases
+    filt = mro_walk_filters(fns, is_mro, is_cls_dict)
     if other:
-        return 'unknown', sorted(set(why))
+        return 'unknown', sorted(set(why + filt))
     if not stores and not reads_attr and not reads_own:
-        return 'walkPerCall', []
+        return ('walkFiltered', sorted(set(filt))) if filt else ('walkPerCall', [])
     if stores and reads_own and not reads_attr:
-        return 'ownTable', sorted(set(why))
+        return ('walkFiltered' if filt else 'ownTable'), sorted(set(why + filt))
     if stores and reads_attr:
         return 'inheritedTable', sorted(set(why))
     return 'unknown', sorted(set(why))
